@@ -242,11 +242,34 @@ def run_family(c, prop, mode, nscen, maxlen, followers, exhaustive=True):
     for v in sorted(res["viol"], key=lambda v: v["line"]):
         if v["prop"] == prop:
             mine.setdefault(sig_of(v), v)
+    # A disagreement between replica processes need not show in every execution (that is what C01 is about):
+    # the saved scenario is executed again up to four times; it confirms the violation if the signature shows
+    # again, or - replicas disagreeing again, in another place - under the signature that does show.
+    confirmed, unconfirmed = {}, []
     for s, v in mine.items():
         path = replay_for(v)
-        if s not in replay_file(path, prop):
-            raise Infra("signature %s did not reproduce from %s" % (s, path))
-        c.replays[s] = path
+        other = None
+        for attempt in range(4):
+            got = [x for x in replay_file(path, prop) if x.startswith(prop + "|")]
+            if s in got:
+                confirmed[s] = v
+                c.replays[s] = path
+                break
+            if got and other is None:
+                other = got[0]
+        else:
+            parts = (other or "").split("|")
+            v2 = dict(v, kind=parts[1] if other else "")
+            v2["class"] = "|".join(parts[2:])
+            if other is None or sig_of(v2) != other:
+                unconfirmed.append(s)
+                continue
+            confirmed[other] = v2
+            c.replays[other] = path
+    if mine and not confirmed:
+        raise Infra("signature %s did not reproduce from its saved scenario" % unconfirmed[0])
+    c.extra["signatures_seen_once_but_not_again"] = unconfirmed
+    mine = confirmed
     c.add_violations(mine.values())
     c.extra["other_family_signatures_seen"] = sorted({sig_of(v) for v in res["viol"] if v["prop"] != prop})
     c.assumptions += [
